@@ -18,21 +18,37 @@
   specification `Bind.decode` on every document that parses (Props/C01 `stream_eq_bind_partial`), which chains the machine to
   the specification of the property.
 
-  Proved, on the sub-universe (`Dir.Sub`: bool, the integer and float kinds, strings, pointers, slices, arrays, structs with
-  tags; floats through the exact conversion of core C, `Num.toF64Bits`):
+  Proved, on the sub-universe (`Dir.Sub`: bool, the integer and float kinds, strings, interface{} (`_OP_any`, the generic
+  decoder specified as parse-then-`toAny`), pointers, slices, fixed arrays (`_OP_array_skip` / `_OP_array_clear`), structs with
+  tags - in place or, nested beyond MaxInlineDepth, through `_OP_recurse`; floats through the exact conversion of core C):
   `exec_compile_eq_stream_partial` - every document the specification ACCEPTS is accepted by the compiled program with the
   same value, from any value stack, which is left as found (`value_stack_balanced`);
   `exec_compile_eq_stream_valid_partial` - on every document of the strict JSON grammar both directions: the program accepts
   exactly what the specification accepts (`exec_compile_eq_stream_unless_syntax_partial`: more generally whenever the
   specification reports no syntax error).  NOT proved: that the program refuses the documents OUTSIDE the grammar on which
   the specification reports a syntax error; it needs the same simulation read on failing runs plus the fact that the
-  specification's fuel (`length + 1`) never runs out before the machine stops.  The full statement does not
+  specification's fuel (`length + 1`) never runs out before the machine stops.
+  Kinds still outside `Sub`: maps inside other types and maps with a repeated key (`exec_compile_eq_stream_map_partial` covers
+  map[string]E at the top with pairwise different keys; with a repeated key the statement is false, below), `,string` fields
+  (false, below), integer / TextUnmarshaler map keys, json.Number, []byte, named types (callbacks; `Stream.decode` itself answers
+  `outside` there, also for the recursive library types reached through `_OP_recurse`).  The full statement does not
   hold on the faithful model outside the sub-universe: `map_dup_key_deviates`, `string_opt_deviates`
   (`exec_compile_eq_stream_fails`); both are listed findings of C01 (C01-map-dup-key-merges-element,
   C01-string-opt-number-content), here located in the program: the first is the order `map_key` → decode-in-place, the second
   the in-place `_OP_i64` + `match_char '"'` of compileStructFieldStr.
+
+  REFUSING.  `exec_refuses_stream_refuses_partial`: an error of the program implies an error of the specification, on every
+  document; `refuses_iff_stream_refuses_valid_partial` / `..._unless_syntax_partial`: both directions where the specification has
+  no syntax error.  The error CLASS is not carried and cannot be: `error_class_deviates`, `same_error_class_fails` (inside the
+  sub-universe; `[300, }` into []int8 is a type error for the program and a syntax error for the specification).
+
+  NAMED POINTER TYPES (finding C09-jitdec-namedptr-inline-depth).  The compile model knows `type DirRef *MV` (tied by
+  disassembly like the rest); the machine runs `_OP_unmarshal_p` for the library's MV.  `namedptr_inline_depth_fails`: the same
+  type compiled at MaxInlineDepth 3 and 8 gives two different values on the same document (`namedptr_programs_differ`: one
+  program defers to the method, the other calls nothing); `namedptr_field_is_unnamed`: as a struct field the type loses its name.
 -/
 import SonicSpec.Proofs.DirDepth
+import SonicSpec.Proofs.DirMap
 namespace SonicSpec.Props.C01Dir
 open SonicSpec SonicSpec.Go SonicSpec.Json SonicSpec.Bind SonicSpec.Dir
 
@@ -72,6 +88,49 @@ theorem exec_compile_eq_stream_unless_syntax_partial (o : DecOpts) (co : COpts) 
     (hd : Stream.decodeVal o (s.length + 1) T (skipWs s) (zeroOf T) = .ok (v, e, r)) :
     (exec o co none (compile co T) s (zeroOf T)).toOption = (Stream.decode o T s).toOption :=
   exec_toOption_of_decodeVal hco hT hd
+
+/-- THE REFUSING DIRECTION, one half for EVERY document (sub-universe): whenever the program reports an error, the specification
+    refuses the document as well (the accepting direction read backwards).  Open: the converse on documents outside the grammar
+    on which the specification reports a syntax error. -/
+theorem exec_refuses_stream_refuses_partial (o : DecOpts) (co : COpts) (T : GoType) (s : Bytes) (x : XErr)
+    (hco : 0 < co.maxInlineDepth) (hT : Sub T = true) (h : exec o co none (compile co T) s (zeroOf T) = .error x) :
+    ∃ e, Stream.decode o T s = .error e := by
+  cases hd : Stream.decode o T s with
+  | error e => exact ⟨e, rfl⟩
+  | ok v => rw [exec_of_stream_ok hco hT hd] at h; cases h
+
+/-- THE REFUSING DIRECTION (sub-universe, documents of the strict grammar): the program refuses exactly when the specification
+    refuses.  Rejection is carried as well as acceptance; the error CLASS is not (`same_error_class_fails`). -/
+theorem refuses_iff_stream_refuses_valid_partial (o : DecOpts) (co : COpts) (T : GoType) (s : Bytes) (j : RVal)
+    (hco : 0 < co.maxInlineDepth) (hT : Sub T = true) (hj : parseRDoc s = some j) :
+    (∃ x, exec o co none (compile co T) s (zeroOf T) = .error x) ↔ (∃ e, Stream.decode o T s = .error e) := by
+  have h := exec_toOption_of_parses (o := o) hco hT hj
+  generalize exec o co none (compile co T) s (zeroOf T) = a at h
+  generalize Stream.decode o T s = b at h
+  cases a <;> cases b <;> simp [Except.toOption] at h ⊢
+
+/-- ... and likewise whenever the specification gets through the value without a syntax error -/
+theorem refuses_iff_stream_refuses_unless_syntax_partial (o : DecOpts) (co : COpts) (T : GoType) (s : Bytes) (v : GoVal) (e : Option DErr)
+    (r : Bytes) (hco : 0 < co.maxInlineDepth) (hT : Sub T = true)
+    (hd : Stream.decodeVal o (s.length + 1) T (skipWs s) (zeroOf T) = .ok (v, e, r)) :
+    (∃ x, exec o co none (compile co T) s (zeroOf T) = .error x) ↔ (∃ e, Stream.decode o T s = .error e) := by
+  have h := exec_toOption_of_decodeVal (o := o) hco hT hd
+  generalize exec o co none (compile co T) s (zeroOf T) = a at h
+  generalize Stream.decode o T s = b at h
+  cases a <;> cases b <;> simp [Except.toOption] at h ⊢
+
+/-- the full refusing statement with classes: every decoding error of the program is the specification's error -/
+def SameErrorClass : Prop :=
+  ∀ (T : GoType) (o : DecOpts) (co : COpts) (s : Bytes) (e : DErr), 0 < co.maxInlineDepth → Sub T = true →
+    exec o co none (compile co T) s (zeroOf T) = .error (.dec e) → Stream.decode o T s = .error e
+
+/-- MAPS (partial: map[string]E at the top, E in the sub-universe, no key of the top-level object twice - `Dir.freshDoc`, decided
+    along the specification's own run).  The program decodes an element INTO the entry `_OP_map_key_str` finds or makes; as long
+    as every key is new that entry is a fresh zero value, which is what the specification decodes into. -/
+theorem exec_compile_eq_stream_map_partial (o : DecOpts) (co : COpts) (E : GoType) (s : Bytes) (v : GoVal)
+    (hco : 0 < co.maxInlineDepth) (hE : Sub E = true) (hf : freshDoc o E s = true) (h : Stream.decode o (.map .str E) s = .ok v) :
+    exec o co none (compile co (.map .str E)) s .nil = .ok v :=
+  exec_of_stream_ok_map hco hE h hf
 
 /-- ... and with the real value stack of `_MaxStack` slots the same, unless the nesting-depth error is raised -/
 theorem exec_bounded_partial (o : DecOpts) (co : COpts) (T : GoType) (s : Bytes) (v : GoVal) (L : Nat)
@@ -162,6 +221,24 @@ theorem string_opt_deviates :
   · obtain ⟨w, hw, _⟩ := stream_ok_of (o := {}) (T := tStrOpt) (s := dStrOpt) (fun _ => true) (by decide +kernel)
     exact ⟨w, hw⟩
 
+/-- ERROR CLASSES DIFFER, inside the sub-universe.  `[300, }` into []int8 and `{"A":300,}` into struct{A int8}:
+    `_OP_i8` stops the run at the value out of range (a type error, immediately), the specification - like encoding/json, which
+    checks the syntax of the whole document first - reports the syntax error behind it.  This is the real decoder's behaviour
+    (dirun: sonic=mismatch, encoding/json=syntax); the `bind` streams of C01 judge it. -/
+theorem error_class_deviates :
+    exec {} {} none (compile {} (.sl (.int 8))) (ascii "[300, }") (zeroOf (.sl (.int 8))) = .error (.dec .mismatch) ∧
+    Stream.decode {} (.sl (.int 8)) (ascii "[300, }") = .error .syntax ∧
+    exec {} {} none (compile {} (.st [("A", none, .int 8)])) (ascii "{\"A\":300,}") (zeroOf (.st [("A", none, .int 8)])) = .error (.dec .mismatch) ∧
+    Stream.decode {} (.st [("A", none, .int 8)]) (ascii "{\"A\":300,}") = .error .syntax :=
+  ⟨exec_err_of (n := 200) _ (by decide +kernel), stream_err_of _ (by decide +kernel),
+    exec_err_of (n := 200) _ (by decide +kernel), stream_err_of _ (by decide +kernel)⟩
+
+theorem same_error_class_fails : ¬ SameErrorClass := by
+  intro h
+  have h1 := h (.sl (.int 8)) {} {} (ascii "[300, }") .mismatch (by decide) (by decide +kernel) error_class_deviates.1
+  rw [error_class_deviates.2.1] at h1
+  cases h1
+
 /-- the full statement does not hold for the faithful model (the deviation above is in the real program) -/
 theorem exec_compile_eq_stream_fails : ¬ ExecCompileEqStream := by
   intro h
@@ -179,6 +256,62 @@ theorem exec_compile_eq_stream_fails : ¬ ExecCompileEqStream := by
     cases r with
     | ok v => cases h2
     | error x => cases h1
+
+/-! ### the recorded finding C09-jitdec-namedptr-inline-depth, on the model
+
+  `type DirRef *MV` (go/harness/ops_dir_hook.go), `(*MV).UnmarshalJSON` reads `{"mv":N}` into V.  DirRef is of pointer kind and has
+  no methods, so compilePtr's `checkMarshaler` finds nothing and the element struct MV is compiled by compileOps: field by field
+  in place while `sp < MaxInlineDepth`, `_OP_recurse MV` beyond - and the program of MV, compiled by compileOne, is
+  `lspace; unmarshal_p *MV`, the method.  Same type, same document, same destination, two inline depths, two values.
+  (encoding/json decodes a DirRef element field by field; so does the real decoder up to the bound: `[{"V":5}]` into [1]DirRef
+  gives V=5 on both, `[[[{"V":5}]]]` into [1][1][1]DirRef gives V=0 with sonic and V=5 with encoding/json - dirun on the
+  unchanged tree.) -/
+
+def tC09 : GoType := .arr 1 (.arr 1 (.arr 1 (.lib "DirRef")))
+def dC09 : Bytes := ascii "[[[{\"V\":5}]]]"
+/-- the destination: the pointer already points to an MV{V:7} (a named struct value is `(st (i V))` in the machine) -/
+def destC09 : GoVal := .arr [.arr [.arr [.ptr (.st [.int 7])]]]
+def innerV : GoVal → Option Int
+  | .arr [.arr [.arr [.ptr (.st [.int v])]]] => some v
+  | _ => none
+
+def isRecurseMV : Instr → Bool
+  | .recurse (.lib "MV") => true
+  | _ => false
+def isCallback : Instr → Bool
+  | .recurse _ | .unmarshal _ _ | .unmarshalP _ _ | .unmarshalText _ _ | .unmarshalTextP _ _ | .dyn _ _ => true
+  | _ => false
+
+/-- the two programs: at the default depth the element is deferred to the program of MV, which is the method call; at depth 8
+    nothing is deferred and no method is called anywhere -/
+theorem namedptr_programs_differ :
+    (compile {} tC09).any isRecurseMV = true ∧
+    (match compile {} (.lib "MV") with
+      | [.lspace, .unmarshalP (.ptr (.lib "MV")) 0] => true
+      | _ => false) = true ∧
+    (compile { maxInlineDepth := 8 } tC09).any isCallback = false := by decide +kernel
+
+/-- `…_fails` witness for "the inline depth is an optimisation only": the same type compiled at two inline depths executes
+    differently - V = 0 (the method ran and found no "mv") at the default depth 3, V = 5 (the field was set in place) at depth 8 -/
+theorem namedptr_inline_depth_fails :
+    ∃ v w, exec {} {} (some maxStack) (compile {} tC09) dC09 destC09 = .ok v ∧
+      exec {} { maxInlineDepth := 8 } (some maxStack) (compile { maxInlineDepth := 8 } tC09) dC09 destC09 = .ok w ∧
+      innerV v = some 0 ∧ innerV w = some 5 := by
+  obtain ⟨v, hv, pv⟩ := exec_ok_of (o := {}) (co := {}) (lim := some maxStack) (P := compile {} tC09) (s := dC09) (dest := destC09) (n := 500)
+    (fun v => innerV v == some 0) (by decide +kernel)
+  obtain ⟨w, hw, pw⟩ := exec_ok_of (o := {}) (co := { maxInlineDepth := 8 }) (lim := some maxStack) (P := compile { maxInlineDepth := 8 } tC09)
+    (s := dC09) (dest := destC09) (n := 500) (fun v => innerV v == some 5) (by decide +kernel)
+  exact ⟨v, w, hv, hw, by simpa using pv, by simpa using pw⟩
+
+/-- a struct FIELD of the defined pointer type is compiled as the unnamed `*MV` (resolver.go:168 puts the pointer together again
+    with `reflect.PtrTo`): there the method IS called, at every depth -/
+theorem namedptr_field_is_unnamed :
+    ((compile {} (.st [("A", none, .lib "DirRef")])).any fun i => match i with
+      | .unmarshal (.ptr (.lib "MV")) 0 => true
+      | _ => false) = true ∧
+    ((compile { maxInlineDepth := 8 } (.st [("A", none, .lib "DirRef")])).any fun i => match i with
+      | .unmarshal (.ptr (.lib "MV")) 0 => true
+      | _ => false) = true := by decide +kernel
 
 /-- a value nested deeper than the value stack: the run ends in the nesting-depth error (with a stack of 2 slots,
     `[[[1]]]` into [][][]int64), while the specification - like encoding/json, which only has its 10000-level limit - decodes -/
@@ -210,19 +343,20 @@ theorem too_deep_witness :
 def tDemo : GoType :=
   .st [("A", some (ascii "a"), .int 8), ("B", none, .ptr (.ptr .str)), ("H", some (ascii "-"), .bool),
        ("C", some (ascii "c,omitempty"), .sl (.st [("X", none, .uint 16), ("Y", none, .bool)])),
-       ("D", none, .arr 3 (.int 64)), ("N", none, .f64), ("M", some (ascii "m"), .ptr .f32),
+       ("D", none, .arr 3 (.int 64)), ("N", none, .f64), ("M", some (ascii "m"), .ptr .f32), ("I", some (ascii "i"), .any),
        ("E", none, .st [("F", none, .st [("G", none, .st [("K", none, .st [("L", none, .uint 64)])])])])]
 
 /-- a document with an unknown field, a duplicate key, nulls, an array shorter than the destination, whitespace -/
 def dDemo : Bytes :=
-  ascii "{ \"a\": -128, \"zz\": [1, {\"q\": null}], \"B\": \"x\\ny\", \"c\": [ {\"X\": 65535, \"Y\": true}, {}, null ], \"D\": [7, 8], \"N\": 1.5, \"m\": -2.5e3, \"a\": 5, \"E\": {\"F\": {\"G\": {\"K\": {\"L\": 18446744073709551615}}}}, \"H\": true }"
+  ascii "{ \"a\": -128, \"zz\": [1, {\"q\": null}], \"B\": \"x\\ny\", \"c\": [ {\"X\": 65535, \"Y\": true}, {}, null ], \"D\": [7, 8], \"N\": 1.5, \"m\": -2.5e3, \"i\": [true, {\"k\": \"v\"}], \"a\": 5, \"E\": {\"F\": {\"G\": {\"K\": {\"L\": 18446744073709551615}}}}, \"H\": true }"
 
 /-- the same with a mismatching value (a string for the integer): accepted by neither side -/
 def dDemoBad : Bytes := ascii "{\"a\": \"x\", \"D\": [1]}"
 
 def isDemo : GoVal → Bool
   | .st [.int 5, .ptr (.ptr (.str s)), .bool false, .sl [.st [.uint 65535, .bool true], .st [.uint 0, .bool false], .st [.uint 0, .bool false]],
-         .arr [.int 7, .int 8, .int 0], .f64 0x3FF8000000000000, .ptr (.f32 0xC51C4000), .st [.st [.st [.st [.uint 18446744073709551615]]]]] => s == ascii "x\ny"
+         .arr [.int 7, .int 8, .int 0], .f64 0x3FF8000000000000, .ptr (.f32 0xC51C4000),
+         .any (.sl .any) (.sl [.any .bool (.bool true), .any (.map .str .any) (.map [(.str _, .any .str (.str _))])]), .st [.st [.st [.st [.uint 18446744073709551615]]]]] => s == ascii "x\ny"
   | _ => false
 
 /-- the hypotheses of `exec_compile_eq_stream_partial` hold for it ... -/
@@ -241,6 +375,16 @@ example : (match Stream.decode {} tDemo dDemoBad with | .error .mismatch => true
     (match execFuel 3000 {} {} (some maxStack) (compile {} tDemo) dDemoBad (zeroOf tDemo) with
       | some (.error (.dec .mismatch)) => true
       | _ => false) = true := by decide +kernel
+/-- a map of slices with pairwise different keys: the hypotheses of `exec_compile_eq_stream_map_partial` hold, both sides agree -/
+example : Sub (.sl (.int 64)) = true ∧ freshDoc {} (.sl (.int 64)) (ascii "{\"a\": [1, 2], \"b\": [], \"\": null}") = true ∧
+    freshDoc {} (.int 64) dDup = false := by decide +kernel
+example : (match Stream.decode {} (.map .str (.sl (.int 64))) (ascii "{\"a\": [1, 2], \"b\": [], \"\": null}") with
+      | .ok (.map [(_, .sl [.int 1, .int 2]), (_, .sl []), (_, .nil)]) => true
+      | _ => false) = true ∧
+    (match execFuel 1000 {} {} (some maxStack) (compile {} (.map .str (.sl (.int 64)))) (ascii "{\"a\": [1, 2], \"b\": [], \"\": null}") .nil with
+      | some (.ok (.map [(_, .sl [.int 1, .int 2]), (_, .sl []), (_, .nil)])) => true
+      | _ => false) = true := by decide +kernel
+
 /-- DisallowUnknownFields: the specification saves the error, the machine stops at the key - both refuse -/
 example : (match Stream.decode { disallowUnknown := true } tDemo dDemo with | .error .unknownField => true | _ => false) = true ∧
     (match execFuel 3000 { disallowUnknown := true } {} (some maxStack) (compile {} tDemo) dDemo (zeroOf tDemo) with
